@@ -57,7 +57,7 @@ SolveOK(x, r) ==
 \* Both readings of "the pivoted input" are accepted, for the permutation that was returned.
 QROK(x, r) ==
     LET n == x.n IN
-    IF ~InDomain(r.cond_milli, 0) THEN TRUE
+    IF ~QRInDomain(x.T, r.cond_k) THEN TRUE
     ELSE /\ r.shape = <<n, n, n, n>>
          /\ Upper(r.Rc, n)
          /\ IF PermOK(x, r)
